@@ -631,7 +631,8 @@ PROPS = {
              "through the real Settings deserialiser; real Core::listen probe: denied peer reads EOF before any ServerHello byte."
              " Live part (suite c04live, wall clock): 9 (thorough 25) rule lists (loopback and foreign CIDRs, IPv4-mapped CIDRs, "
              "bitwise random patterns, malformed entries) on the real Core::listen, alternately bound to 127.0.0.1 and to the dual-stack "
-             "[::] (where the IPv4 client arrives as ::ffff:127.0.0.1); 8 TCP clients per list send a real ClientHello carrying a chosen "
+             "[::] (where the IPv4 client arrives as ::ffff:127.0.0.1), with a host entry of every class (tunnel, ping, speedtest, reverse "
+             "proxy) and the SNI rotating over them; 8 TCP clients per list send a real ClientHello carrying a chosen "
              "random and see a ServerHello or the end of the stream; 5 (10) quiche clients per list complete the QUIC handshake and ask "
              "for a health check (served, or dropped before any request); the verdict is compared with the model for peer 127.0.0.1 "
              "and the random actually used",
@@ -696,7 +697,7 @@ PROPS = {
              "certificate) on a live Core; 4 threads selecting during alternating reloads"
              " Every pair of host classes sharing a name (16 pairs) must be refused at build time and at reload."
              " Live part (suite c05live, wall clock): the real Core::listen (TCP and QUIC) on a loopback port with four host entries that "
-             "have four different certificates, for 2 (thorough 4) sets of enabled protocols, before and after a hot reload that trades "
+             "have four different certificates, for 3 (thorough 5) sets of enabled protocols (one without HTTP/1.1), before and after a hot reload that trades "
              "names between classes: rustls clients over TCP (10 SNI forms incl. none, alternative, <credentials>.<host>, unknown; 10 ALPN "
              "lists incl. none, h3 on TCP, unknown) and quiche clients over QUIC observe the certificate presented, the protocol "
              "negotiated and which channel answers a probe request (tunnel -> scripted forwarder refuses -> 502, ping -> 200, speedtest -> "
@@ -744,7 +745,9 @@ PROPS = {
              "and never a reset."
              " Live HTTP/3 part (suite c02h3, wall clock): the same tunnels (13 quick, 44 thorough) through the real Core::listen on a "
              "loopback UDP port - QUIC multiplexer, HTTP/3 codec, Tunnel, direct forwarder - driven by a quiche client of the harness with "
-             "flow-control windows of 1 MiB and 8 KiB, including clients that end their stream while the origin still sends",
+             "flow-control windows of 1 MiB and 8 KiB, including clients that end their stream while the origin still sends; and 4 failing "
+             "tunnels (the client resets its stream / the origin aborts with a TCP reset, the other direction idle or transferring): "
+             "the other side must see its connection end within 3 s and hold nothing but a prefix of what was sent",
         explanation="theorems stream_invariant, delivered_is_prefix, credit_*, finished_complete, eof_only_when_drained, eof_after_writes, "
                     "restart_preserves, no_call_after_failure, duplex_* about TT/Model/Pipe.lean for every answer sequence",
         trusted=["cancel-safety of Source::read (scripted sources are cancel-safe; real h2/TCP sources are assumed to be)",
@@ -770,7 +773,8 @@ PROPS = {
              " TLS handshake timeout (suite c14live, wall clock, H = 600 ms): the real Core::listen on a loopback port; clients that stay "
              "silent, stop in the middle of the ClientHello, drip it a byte every 50 ms, send it completely and never continue, or send "
              "a record prefix must be disconnected within [H - 30 ms, 2H + 1.5 s]; clients that complete the handshake (at once, after "
-             "H/2) stay connected past 2H and are served a health check",
+             "H/2) stay connected past 2H and are served a health check; two HTTP/3 sessions on the reverse-proxy host (session timeout 700 ms), "
+             "one whose stream completes and one whose stream fails, must be closed by the endpoint within the timeout + 4 s",
         explanation="theorems idle_not_early, idle_bound_2T, progress_at_deadline_keeps_open, wf_step about the Timer model of "
                     "TT/Model/Pipe.lean; establishment_timeout_reported, establishment_in_time_connected, "
                     "establishment_timeout_destination_independent about TT.Dispatch.handle (the request path model of C10)",
@@ -911,7 +915,9 @@ PROPS = {
              "a loopback origin or a refusing port, 1-90000 bytes up or down, client FIN / client reset / origin close in any order - "
              "executed by a quiche client; after every operation the series of GET /metrics, once stable, are compared with the model "
              "(Proto.h3: multiplexed like HTTP/2, own cells, and a vanished client's open tunnels are torn down at once); between "
-             "histories all gauges must return to zero within 3 s; /health-check must answer 200",
+             "histories all gauges must return to zero within 3 s; /health-check must answer 200; two clients vanish silently with a tunnel "
+             "open (QUIC idle timeout 2 s from the client's transport parameters; once the origin sends 1000 bytes a second later): the "
+             "gauges must be back at zero within 7 s",
         explanation="theorems cells_equal_objects, gauges_nonneg, all_clients_gone_sessions_udp_zero, all_clients_gone_everything_zero, "
                     "refused_connect_balanced, hanging_connect_released_by_timeout, counters_monotone, up_adds_exactly, "
                     "down_adds_exactly, no_relay_no_bytes, half_closed_tunnel_released_when_both_ended, icmp_counts_only_relayed, udp_bytes_follow_multiplexer, documented_series, documented_paths about "
@@ -1035,7 +1041,8 @@ PROPS = {
              "every captured line is searched for 13 canaries (raw values, base64 tokens, SNI labels, the configured password); "
              "(d) the same over HTTP/3: 21 connections (3 SNI-credential situations x 7 header sets) to the real QUIC listener, each "
              "carrying the 10 request kinds and ping / speedtest / reverse-proxy requests as concurrent streams, the QUIC multiplexer's "
-             "and quiche's own log lines included in the search",
+             "and quiche's own log lines included in the search, plus one request per connection that the endpoint rejects while building it "
+             "(secret-bearing headers under invalid field names)",
         explanation="theorems scrub_request_hides (non-interference), scrubbed_values_are_placeholders, scrub_keeps_other_headers, "
                     "scrub_adds_nothing, scrub_sni_hides_label, meta_debug_hides_creds about TT/Model/Scrub.lean; all_log_sites_clean over the "
                     "regenerated TT/Gen/LogSites.lean",
